@@ -233,3 +233,41 @@ Theorem scaled_tile_georef :
         ((fst (tile_offset nx (tw g) (th g) (Z.of_nat i)) * res_at g sl)%Z,
          (snd (tile_offset nx (tw g) (th g) (Z.of_nat i)) * res_at g sl)%Z).
 Proof. exact Geo_proofs.scaled_tile_georef. Qed.
+
+(* MESH path (different SRS), transform_meshes: divide_quad always partitions the quad - every pixel of the quad lies
+   in exactly one of the returned quads, every other pixel in none - and the pieces stay inside it, so the
+   recursion works on a partition of the output image; *)
+Theorem mesh_partitions_output :
+  forall q0 q1 q2 q3 i j, (q0 <= q2)%Z -> (q1 <= q3)%Z ->
+    length (filter (fun s => in_quadb s i j) (divide_quad (q0, q1, q2, q3))) =
+    if in_quadb (q0, q1, q2, q3) i j then 1%nat else 0%nat.
+Proof. exact divide_quad_partition. Qed.
+
+Theorem mesh_pieces_inside :
+  forall q0 q1 q2 q3 s, (q0 <= q2)%Z -> (q1 <= q3)%Z -> In s (divide_quad (q0, q1, q2, q3)) ->
+    let '(s0, s1, s2, s3) := s in (q0 <= s0 <= s2 /\ s2 <= q2 /\ q1 <= s1 <= s3 /\ s3 <= q3)%Z.
+Proof. exact divide_quad_inside. Qed.
+
+(* and for ANY external transformation T the source pixel coordinates of the corners of a mesh quad denote exactly
+   T(ground point of the corner).  mesh_partial: nothing is claimed about the interior of a quad (PIL interpolates
+   there; is_good bounds the error at the quad centre by max_px_err = 1 px by construction). *)
+Theorem mesh_corner_exact :
+  forall (T : qpt -> qpt) sb sw sh db dw dh off q c,
+    pos_size sw sh -> nondegenerate sb ->
+    In c (dst_quad_to_src T sb sw sh db dw dh off q) ->
+    exists i j : Z,
+      (let '(q0, q1, q2, q3) := q in (i = q0 \/ i = q2) /\ (j = q1 \/ j = q3)) /\
+      qpt_eq (lin_transf (img_rect sw sh) sb c)
+             (T (lin_transf (img_rect dw dh) db (inject_Z i + off, inject_Z j + off))).
+Proof. exact Geo_proofs.mesh_corner_exact. Qed.
+
+(* Meta tiles along y on grids numbered from the top: exact as along x, also when the buffer is cut at the top edge of
+   the grid bbox.  (On grids numbered from the south with a top edge off the pixel lattice the cut is truncated:
+   error < 1 px, part of the known finding accumulated-subpixel-error.) *)
+Theorem meta_tile_georef_rows_ul :
+  forall m x y l mb sz pats k tx ty tl ox oy,
+    wf (mg m) -> valid_level (mg m) l = true -> (0 < msx m)%Z -> (0 < msy m)%Z -> ul (mg m) = true ->
+    meta_tile m x y l = (mb, sz, pats) ->
+    nth_error pats k = Some (Some (tx, ty, tl), (ox, oy)) ->
+    tl = l /\ snd (ul_offset_ground mb (tile_bbox (mg m) tx ty tl)) = (oy * res_at (mg m) l)%Z.
+Proof. exact meta_tile_georef_y_ul. Qed.
